@@ -134,6 +134,14 @@ func setup(t *rapid.T) *machine {
 		m.remote = append(m.remote, rfeat{[]uint{1}, id, ft, model.RoleTypeClient}, rfeat{[]uint{1}, id + 1, ft, model.RoleTypeServer})
 		id += 2
 	}
+	if rapid.Bool().Draw(t, "peersHaveTwoClientsOfOneType") {
+		// an entity may hold several features of one type and role (two measurement clients, say):
+		// each of them is an announced feature and is answered like any other
+		feats = append(feats, world.FeatSpec{ID: id, Type: m.types[0], Role: model.RoleTypeClient})
+		m.remote = append(m.remote, rfeat{[]uint{1}, id, m.types[0], model.RoleTypeClient})
+		id++
+		world.Label("peers/two-clients-of-one-type")
+	}
 	m.remote = append(m.remote, rfeat{[]uint{0}, 0, model.FeatureTypeTypeNodeManagement, model.RoleTypeSpecial})
 	for i := 0; i < 2; i++ {
 		m.w.AddPeer(fmt.Sprintf("ski-%d", i+1), fmt.Sprintf("d:_r:peer%d", i+1), []world.EntSpec{{Addr: []uint{1}, Type: model.EntityTypeTypeCEM, Feats: feats}})
@@ -612,11 +620,114 @@ func (m *machine) removeEntity(t *rapid.T) {
 	m.logf("application removes local entity [2] (%d features)", len(m.removed))
 }
 
+// readCurrent: a peer reads fn of the local server feature l from its client feature of that type and
+// must get exactly one reply carrying the function's current data.
+func (m *machine) readCurrent(t *rapid.T, pi int, l *lfeat, f *gen.Func, when string) {
+	w := m.w
+	p := w.Peers[pi]
+	var src *rfeat
+	for i := range m.remote {
+		if r := m.remote[i]; r.ft == l.ft && r.role == model.RoleTypeClient {
+			src = &m.remote[i]
+			break
+		}
+	}
+	if src == nil {
+		return
+	}
+	cmd := model.CmdType{}
+	reflect.ValueOf(&cmd).Elem().FieldByName(f.CmdField).Set(reflect.New(f.DataType))
+	for _, q := range w.Peers {
+		q.Cap.Drain()
+	}
+	want := world.JSON(l.f.DataCopy(f.Fn))
+	d := p.Msg(model.CmdClassifierTypeRead, p.FA(src.ent, src.id), world.LA(l.ent, l.id), false, nil, cmd)
+	p.Send(d)
+	w.Sync()
+	var replies []world.Sent
+	for qi, q := range w.Peers {
+		for _, s := range q.Cap.Drain() {
+			if !s.IsResponse() {
+				continue
+			}
+			if qi != pi || s.Classifier() != model.CmdClassifierTypeReply {
+				world.Fail(t, "C01/response-count/read/server/ack=false", "read of %s (%s): a %s (error %d) was written to peer%d%s", f.Fn, when, s.Classifier(), s.ErrorNumber(), qi+1, m.history())
+			}
+			replies = append(replies, s)
+		}
+	}
+	if len(replies) != 1 {
+		world.Fail(t, "C01/read-not-replied/server", "read of %s (%s) got %d replies%s", f.Fn, when, len(replies), m.history())
+	}
+	rc := replies[0].Cmd()
+	data, err := rc.Data()
+	if err != nil || data.Function == nil || *data.Function != f.Fn {
+		world.Fail(t, "C01/reply-function", "the reply (%s) does not carry the addressed function %s%s", when, f.Fn, m.history())
+	}
+	if got := world.JSON(data.Value); got != want && !(want == "null" && got == "{}") {
+		world.Fail(t, "C01/reply-payload/"+when, "the reply payload differs from the function's current data (%s)\n reply:  %s\n stored: %s%s", when, got, want, m.history())
+	}
+}
+
+// changeBetweenReads: "in any prior state of data" - a peer reads a list function, the application changes
+// the data through the local API (SetData, or UpdateData with a partial / delete filter of any shape), and the
+// same or another peer reads it again: every reply carries the data the function holds at that moment.
+func (m *machine) changeBetweenReads(t *rapid.T) {
+	type cand struct {
+		l *lfeat
+		f gen.Func
+	}
+	var cands []cand
+	for i := range m.local {
+		l := &m.local[i]
+		if l.class != "server" {
+			continue
+		}
+		for fn, ops := range l.f.Operations() {
+			if f := gen.ByFunction(fn); ops.Read() && f != nil && f.IsList && listgen.CapsOf(f).Keyed {
+				cands = append(cands, cand{l, *f})
+			}
+		}
+	}
+	if len(cands) == 0 {
+		t.Skip("no readable keyed list function on a local server feature")
+	}
+	sort.Slice(cands, func(i, j int) bool {
+		if cands[i].l.id != cands[j].l.id {
+			return cands[i].l.id < cands[j].l.id
+		}
+		return cands[i].f.Fn < cands[j].f.Fn
+	})
+	c := cands[rapid.IntRange(0, len(cands)-1).Draw(t, "target")]
+	f := &c.f
+	m.readCurrent(t, rapid.IntRange(0, len(m.w.Peers)-1).Draw(t, "firstReader"), c.l, f, "before-the-change")
+	n := rapid.IntRange(1, 2).Draw(t, "changes")
+	for i := 0; i < n; i++ {
+		state := refmodel.ItemsOf(f, c.l.f.DataCopy(f.Fn))
+		shapes := listgen.ShapesFor(f)
+		shape := shapes[rapid.IntRange(0, len(shapes)-1).Draw(t, fmt.Sprintf("shape%d", i))]
+		u := listgen.Update(t, f, state, shape, gen.Opt{}, fmt.Sprintf("change%d", i))
+		fp, fd := listgen.Filters(f, u)
+		var err *model.ErrorType
+		if fp == nil && fd == nil && rapid.Bool().Draw(t, fmt.Sprintf("viaSetData%d", i)) {
+			c.l.f.SetData(f.Fn, refmodel.Payload(f, u.Items))
+		} else {
+			err = c.l.f.UpdateData(f.Fn, refmodel.Payload(f, u.Items), fp, fd)
+		}
+		m.w.Sync()
+		m.logf("application changes %s of %v/%d (%s) => err=%v", f.Fn, c.l.ent, c.l.id, u.Shape(), err != nil)
+		world.Label("change-between-reads/" + u.Shape())
+		m.readCurrent(t, rapid.IntRange(0, len(m.w.Peers)-1).Draw(t, fmt.Sprintf("reader%d", i)), c.l, f, "after-a-change-by-the-application")
+	}
+	m.w.Events.Drain()
+	m.tuples[fmt.Sprintf("change-between-reads/%s", f.Fn)] = true
+}
+
 func TestResponses(t *testing.T) {
 	rapid.Check(t, world.Prop(func(t *rapid.T) {
 		m := setup(t)
 		defer m.w.Teardown()
-		t.Repeat(map[string]func(*rapid.T){"datagram": m.step, "datagram2": m.step, "datagram3": m.step, "datagram4": m.step, "datagram5": m.step, "removeEntity": m.removeEntity})
+		t.Repeat(map[string]func(*rapid.T){"datagram": m.step, "datagram2": m.step, "datagram3": m.step, "datagram4": m.step, "datagram5": m.step, "removeEntity": m.removeEntity, "changeBetweenReads": m.changeBetweenReads})
 		// every step reaches ProcessCmd with a resolvable source feature (non-trivial by rule);
 		// distinctness is counted per tuple
 		for k := range m.tuples {
